@@ -5,7 +5,7 @@ independently of asn1c) and values, the bytes of the C encoders built from
 /repo are compared with the extracted model (faithfulness, std=false) and with
 the standard reading of the model (oracle, std=true); leaf functions (tag,
 length, PER support) are tied through leafdrv."""
-import sys, os
+import sys, os, json
 sys.path.insert(0, os.path.join(os.path.dirname(os.path.abspath(__file__)), "..", "lib"))
 from vlib import *
 from modcorpus import *
@@ -123,8 +123,46 @@ def leaf_part(run, model, rng, tier):
             run.violation("oracle:" + cmd, {"what": "octets differ from X.690", "command_line": l, "c": c, "x690": exp.hex()})
 
 
+# a SEQUENCE with a second root list after the extension additions (X.680 25.1: `{ root1, ..., additions, ..., root2 }`):
+# X.690 8.9.2 encodes the components "in the order of their appearance in the definition", i.e. a, x, b
+TWOROOT = """TwoRoot DEFINITIONS AUTOMATIC TAGS ::= BEGIN
+  T ::= SEQUENCE { a INTEGER, ..., x INTEGER, ..., b INTEGER }
+END
+"""
+TWOROOT_STD, TWOROOT_C = "3009800101820102810103", "3009800101810103820102"      # { a 1, x 2, b 3 }: a x b (X.690) / a b x
+
+
+def probe_two_root_lists(run):
+    """finding C02-second-root-list-order: asn1c moves the second root list in front of the additions (asn1f_fix_constr_ext) for
+    every codec; right for PER, not for BER/DER.  Known while the DER encoder emits a, b, x and the BER decoder refuses a, x, b;
+    the standard bytes both ways are the repaired behaviour; anything else is a violation."""
+    m = {"name": "TwoRoot", "text": TWOROOT, "defs": [("T", None)]}
+    build_modules([m], tag="c02_tworoot")
+    run.case("build TwoRoot")
+    if not m.get("exe"):
+        run.violation("build:module", {"what": "the probe module with a second root list does not build", "module": TWOROOT,
+                                       "asn1c_out": m.get("asn1c_out", "")[-1500:], "build_log": m.get("build_log", "")[-1500:]})
+        return
+    lines = ["dec T ber " + TWOROOT_STD, "dec T ber " + TWOROOT_C]
+    out = run_mod(run, m, lines, "C02-two-root-lists")
+    for l in lines:
+        run.case(l)
+    std_ok = out[0].startswith("OK 11 " + TWOROOT_STD)
+    if std_ok and not out[1].startswith("OK"):
+        run.count("probe_two_root_lists_standard_order")
+    elif out[0].startswith("FAIL") and out[1].startswith("OK 11 " + TWOROOT_C):
+        run.known_finding("C02-second-root-list-order", lines[0])
+    else:
+        run.violation("oracle:der(second root list)", {"module": TWOROOT, "command_lines": lines, "c": out, "standard": TWOROOT_STD,
+                                                        "what": "SEQUENCE { a, ..., x, ..., b }: neither the X.690 order a, x, b nor the recorded order a, b, x"})
+
+
 def main(tier):
     run = Run("C02", tier)
+    fp = os.path.join(VERIF, "findings.d", "C02.json")      # entries of the fragment that bin/mkmanifest has not assembled yet
+    if os.path.exists(fp):
+        have_ids = {f["id"] for f in run.findings}
+        run.findings += [f for f in json.load(open(fp)) if f.get("status") == "open" and f["id"] not in have_ids]
     rng = Rng(run.seed)
     ok, out = coq_build()
     nthm, ndis, axioms, names, plog = obligations("C02") if ok else (0, 0, set(), [], out)
@@ -183,6 +221,7 @@ def main(tier):
             if i < 3:
                 run.sample({"type": c["ts"], "value": c["vs"][:80], "der": c["der"][:80], "uper": c["uper"][:60], "oer": c["oer"][:60]})
     ext_layer.run_c02(run, rng, tier)
+    probe_two_root_lists(run)
     setdef_layer.run_c02(run, rng, tier)
     primb_layer.run_c02(run, rng, tier)
     prima_layer.run_c02(run, rng, tier)
